@@ -457,6 +457,18 @@ func genScript(g *Gen, sizeClass func() int) Script {
 			sc.Actions = append(sc.Actions, Action{Op: "reply", Continues: g.Pct(50), Params: g.maybeParams(sizeClass())})
 		}
 	}
+	// a handler that retries a refused continues-reply without touching the flag:
+	// the retry is the same attempt again
+	if g.Pct(8) {
+		for i := 0; i < len(sc.Actions); i++ {
+			if a := sc.Actions[i]; a.Op == "reply" && a.Continues {
+				retry := a
+				retry.KeepFlag = true
+				sc.Actions = append(sc.Actions[:i+1], append([]Action{retry}, sc.Actions[i+1:]...)...)
+				break
+			}
+		}
+	}
 	// a reply under a generous deadline, and long pauses: a deadline armed for
 	// one reply must not cut a later one
 	if g.Pct(12) {
